@@ -955,7 +955,7 @@ EXAMPLES = [
     _E("douglas_rachford_splitting_contraction", _C, "wc_douglas_rachford_splitting_contraction", "tight",
        {"mu": 0.1, "L": 1, "alpha": 3, "theta": 1, "n": 1}, gen_douglas_rachford_splitting_contraction,
        "theta = 1 (docstring: 'for when theta=1', [2, Thm 2]), 0 < mu < L, alpha > 0, n >= 1", "cheap",
-       "theoretical_tau is None for theta != 1 (exact comparison theta == 1)"),
+       "theoretical_tau is None for theta != 1 (exact comparison theta == 1)", ref_when=lambda kw: kw["theta"] == 1),
     _E("douglas_rachford_splitting", _C, "wc_douglas_rachford_splitting", "tight",
        {"L": 1, "alpha": 1, "theta": 1, "n": 10}, gen_douglas_rachford_splitting,
        "L = alpha = theta = 1 and 1 <= n <= 10 only (docstring: comparison with PESTO values)", "medium",
